@@ -47,8 +47,8 @@ Calibration (unchanged tree, seeds 0,1,2,7,12345 quick + one thorough run)
   loop ends in ``leaf_nodes_sorted.pop()`` on an empty list.  Needs list nodes
   nested three deep (>= 6 keys), hence the dedicated "tower" generator.
 * Defects 1 and 2 were committed to /repo by the lead (d6fa8cf, d4e40d1) while
-  this module was being calibrated; their PENDING entries are kept for the
-  record and no longer fire on the current tree.
+  this module was being calibrated; the fix for defect 3 is delivered as
+  fixes_ready/C06_01_orphaned_data_roots.patch.  PENDING is empty.
 * Step bound: the first bound (quadratic with factor 40) let two 150-key
   non-terminating calls of defect 2 run into the 120 s wall watchdog on a heavily
   loaded machine; order() was measured at <= 165 lines per (key + edge), the
@@ -134,26 +134,9 @@ TECHNIQUE = ("runtime monitoring: return-value contract on the real order() (key
              "harness' own program) + sys.monitoring step bound; complete small space + structured random + borrowed graphs")
 CASE_TIMEOUT = 120
 
-PENDING = {
-    # the striplists>=2:{duplicate-priority,priority-not-above-dependency} and legacy-arg-names-external-key:* entries were
-    # fixed in /repo by the lead (d6fa8cf, d4e40d1) during calibration; the data-root-only-under-striplists entry is open
-    "order:striplists>=2:duplicate-priority:involves-striplist":
-        ">=2 non-task list leaves with >=2 deps: 2nd stripped leaf gets len(dsk)-1-n_removed on the shrinking dsk and "
-        "collides with a priority of the remaining graph",
-    "order:striplists>=2:priority-not-above-dependency:of-striplist":
-        "same mechanism: the colliding list leaf's priority is <= the priority of one of its own dependencies",
-    "order:legacy-arg-names-external-key:acyclic-rejected":
-        "mixed legacy/task-spec graph, a legacy node names a key that a task-spec node references outside the graph: "
-        "order() adds a DataNode under that name to the dict DependenciesMapping reads, dependencies/dependents diverge "
-        "after the cache is cleared -> KeyError / AssertionError / ZeroDivisionError / bogus 'Cycle detected'",
-    "order:striplists>=2+data-root-only-under-striplists:acyclic-rejected:IndexError@order.py:get_target":
-        "a literal/DataNode with >=2 dependents, all of them non-task lists stripped as leaves in later passes, is parked "
-        "in requires_data_task and never gets a priority: IndexError('pop from empty list') in get_target; needs >=6 keys "
-        "(still present after d6fa8cf/d4e40d1; fix proposed in findings_proposed/C06.md section 3)",
-    "order:legacy-arg-names-external-key:nontermination":
-        "same mechanism: the main loop `while len(result) < expected_len` never ends (step bound exceeded; replayed "
-        "by hand under PYTHONHASHSEED=0)",
-}
+# All mechanisms found during calibration have fixes: d6fa8cf (list-leaf priorities), d4e40d1 (legacy argument naming an
+# external key) in /repo, and fixes_ready/C06_01_orphaned_data_roots.patch (data root only under stripped list nodes).
+PENDING = {}
 
 STYLES = ("str", "int", "tuple")
 BASE_KINDS = "TNSD"
